@@ -74,6 +74,11 @@ pub struct TextSpec {
     pub alphabet: Alphabet,
     /// put a string-literal field with non-ASCII text on the same line before an identifier
     pub inline_wide: bool,
+    /// spell include paths as "./name" (the same file, written differently)
+    pub dotted: bool,
+    /// add multi-line constructs: a defset with an anonymous def, a class whose template
+    /// arguments continue on the next line, let / foreach blocks, a def spanning two lines
+    pub rich: bool,
 }
 
 fn wide(alphabet: Alphabet, n: u32) -> &'static str {
@@ -98,7 +103,11 @@ impl TextSpec {
             }
         }
         for inc in &self.includes {
-            s.push_str(&format!("include \"{inc}\"{e}"));
+            if self.dotted {
+                s.push_str(&format!("include \"./{inc}\"{e}"));
+            } else {
+                s.push_str(&format!("include \"{inc}\"{e}"));
+            }
         }
         s.push_str(&format!("class V_{n:04};{e}"));
         if self.inline_wide {
@@ -111,6 +120,13 @@ impl TextSpec {
         }
         s.push_str(&format!("// doc of T_{k} {}{e}class T_{k}<int p> {{ int q = p; }}{e}", wide(self.alphabet, n + 1)));
         s.push_str(&format!("def D_{k} : K_{k};{e}"));
+        if self.rich {
+            s.push_str(&format!("defset list<K_{k}> S_{k} = {{{e}  def : K_{k} {{{e}    let x = 3;{e}  }}{e}  def N_{k} : K_{k};{e}}}{e}"));
+            s.push_str(&format!("class M_{k}<int p,{e}          int q> {{{e}  int y = p;{e}}}{e}"));
+            s.push_str(&format!("let x = 5 in {{{e}  def L_{k} : K_{k};{e}}}{e}"));
+            s.push_str(&format!("foreach i = [1, 2] in {{{e}  def : M_{k}<i, 2>;{e}}}{e}"));
+            s.push_str(&format!("def X_{k} : M_{k}<1,{e}              2>;{e}"));
+        }
         for u in &self.uses {
             s.push_str(&format!("def D_{k}_{u} : K_{u} {{ let x = 2; }}{e}"));
         }
@@ -165,7 +181,7 @@ pub fn identifier_offsets(text: &str) -> Vec<(u32, String)> {
     out
 }
 
-const KEYWORDS: [&str; 9] = ["include", "class", "def", "int", "string", "let", "defset", "in", "bit"];
+const KEYWORDS: [&str; 11] = ["include", "class", "def", "int", "string", "let", "defset", "in", "bit", "foreach", "list"];
 
 /// Offsets of identifiers that are names (not keywords): where requests are interesting.
 pub fn name_offsets(text: &str) -> Vec<(u32, String)> {
@@ -247,6 +263,8 @@ pub fn gen_text(rng: &mut Rng, vs: &mut Versions, key: &str, includable: &[&str]
         eol: cfg.eol,
         alphabet: cfg.alphabet,
         inline_wide: cfg.alphabet != Alphabet::Ascii && rng.chance(1, 2),
+        rich: rng.chance(1, 3),
+        dotted: rng.chance(1, 6),
     }
 }
 
@@ -254,8 +272,10 @@ pub fn gen_text(rng: &mut Rng, vs: &mut Versions, key: &str, includable: &[&str]
 pub fn edit_text(rng: &mut Rng, vs: &mut Versions, prev: &TextSpec, includable: &[&str], cfg: &GenCfg) -> TextSpec {
     let mut t = prev.clone();
     t.version = vs.next();
-    match rng.below(8) {
+    match rng.below(10) {
+        9 => t.dotted = !t.dotted,
         7 => t.joined = !t.joined,
+        8 => t.rich = !t.rich,
         0 if !includable.is_empty() => {
             // toggle an include
             let o = *rng.pick(includable);
@@ -516,12 +536,22 @@ fn touch(rng: &mut Rng, b: &mut Build, keys: &[&str], k: &str, cfg: &GenCfg, sav
         b.disk.insert(path.clone(), FileState::Text(text.clone()));
         b.ops.push(Op::DiskWrite { path: path.clone(), text: text.clone() });
     }
-    if b.open.contains_key(&path) {
+    // mostly didOpen for a document that is not open and didChange for one that is, but the
+    // other way round is legal too (a change for a document the server has not been told
+    // about, a second didOpen for an open one), and so are no-op notifications in between
+    let is_open = b.open.contains_key(&path);
+    let unusual = rng.chance(1, 10);
+    if is_open != unusual {
         b.ops.push(Op::Change { path: path.clone(), text: text.clone() });
     } else {
         b.ops.push(Op::Open { path: path.clone(), text: text.clone() });
     }
-    b.open.insert(path, text);
+    b.open.insert(path.clone(), text);
+    match rng.below(12) {
+        0 => b.ops.push(Op::EmptyChange { path }),
+        1 => b.ops.push(Op::Save { path }),
+        _ => {}
+    }
 }
 
 /// The editor closes `k` (and may re-open it later: document versions restart at 1 then).
@@ -769,4 +799,88 @@ pub fn gen_wire(rng: &mut Rng) -> Scenario {
 
 pub fn key_for(path: &str) -> String {
     key_of_path(path)
+}
+
+
+/// `hist-live` (the server-layer part of C07): an edit/disk history played through the real
+/// server, paced (quiescent after every step, so no state is racy): documents are opened,
+/// changed, closed and re-opened; files that are not open are rewritten, removed, made
+/// unreadable and re-created on disk between the steps; a file next to the includer may start
+/// or stop shadowing its INCLUDE_DIR namesake. Every response and publication must equal a
+/// fresh analysis of the state it belongs to.
+pub fn gen_hist_live(rng: &mut Rng) -> Scenario {
+    let use_inc_dir = rng.chance(1, 2);
+    let n_docs = rng.range(2, 3);
+    let all = ["a", "b", "c"];
+    let mut keys: Vec<&str> = all[..n_docs].to_vec();
+    keys.push("e");
+    if use_inc_dir {
+        keys.push("d");
+    }
+    let docs: Vec<&str> = all[..n_docs].to_vec();
+    let cfg = GenCfg { alphabet: Alphabet::Ascii, eol: Eol::Lf, allow_faults: true, allow_syntax_fault: true, max_lead: 3 };
+    let mut b = Build::new();
+    for k in &keys {
+        let spec = gen_text(rng, &mut b.vs, k, &includable(&keys, k), &cfg);
+        if *k != "e" || rng.chance(2, 3) {
+            b.disk.insert(path_of_key(k), FileState::Text(spec.render()));
+        }
+        b.history.entry(k.to_string()).or_default().push(spec.clone());
+        b.specs.insert(k.to_string(), spec);
+    }
+    let disk0 = b.disk.clone();
+    let n_steps = rng.range(2, 7);
+    let kinds = [ReqKind::DocumentSymbol, ReqKind::Definition, ReqKind::References, ReqKind::Hover, ReqKind::DocumentLink, ReqKind::InlayHint, ReqKind::FoldingRange, ReqKind::Completion];
+    for step in 0..n_steps {
+        if step > 0 && rng.chance(1, 2) {
+            // something outside the editor changes a file that is not open
+            let cands: Vec<&str> = keys.iter().copied().filter(|k| !b.open.contains_key(&path_of_key(k))).collect();
+            if !cands.is_empty() {
+                let k = *rng.pick(&cands);
+                let path = path_of_key(k);
+                match rng.below(6) {
+                    0 => {
+                        b.disk.remove(&path);
+                        b.ops.push(Op::DiskRemove { path });
+                    }
+                    1 => {
+                        b.disk.insert(path.clone(), FileState::Unreadable);
+                        b.ops.push(Op::DiskUnreadable { path });
+                    }
+                    2 if use_inc_dir => {
+                        // a file next to the includers starts / stops shadowing /w/inc/d.td
+                        let shadow = format!("{DIR}/d.td");
+                        if b.disk.contains_key(&shadow) {
+                            b.disk.remove(&shadow);
+                            b.ops.push(Op::DiskRemove { path: shadow });
+                        } else {
+                            let text = format!("class V_{:04};\nclass K_d {{ int x = 1; }}\nclass T_d<int p> {{ int q = p; }}\n", b.vs.next());
+                            b.disk.insert(shadow.clone(), FileState::Text(text.clone()));
+                            b.ops.push(Op::DiskWrite { path: shadow, text });
+                        }
+                    }
+                    _ => {
+                        let saved = b.specs[k].clone();
+                        let text = next_spec(rng, &mut b, &keys, k, &cfg).render();
+                        let _ = saved;
+                        b.disk.insert(path.clone(), FileState::Text(text.clone()));
+                        b.ops.push(Op::DiskWrite { path, text });
+                    }
+                }
+            }
+        }
+        if !b.open.is_empty() && rng.chance(1, 6) {
+            let paths: Vec<String> = b.open.keys().cloned().collect();
+            let picked: String = rng.pick(&paths).clone();
+            close_doc(&mut b, &key_of_path(&picked));
+        }
+        let k = *rng.pick(&docs);
+        let save = rng.chance(1, 2);
+        touch(rng, &mut b, &keys, k, &cfg, save, false);
+        let n = rng.range(2, 5);
+        requests_burst(rng, &mut b, n, &kinds, None);
+        b.ops.push(Op::Sync);
+    }
+    let concurrency = count_requests(&b.ops) + 2;
+    Scenario { profile: "hist-live".into(), knobs: sample_knobs(rng, concurrency, use_inc_dir), disk0, ops: b.ops }
 }
